@@ -547,7 +547,7 @@ func ruleR13(p *Prog) []Ob {
 				}
 				n++
 				ordT[funcLabel(fn)]++
-				ob := Ob{Rule: "R13", Inst: fmt.Sprintf("temp-name:%s#%d", funcLabel(fn), ordT[funcLabel(fn)]), Props: append(append([]string{}, props...), "C05"), Pos: p.at(at), Func: funcLabel(fn)}
+				ob := Ob{Rule: "R13", Inst: fmt.Sprintf("temp-name:%s#%d", funcLabel(fn), ordT[funcLabel(fn)]), Props: append(append([]string{}, props...), "C05", "C12"), Pos: p.at(at), Func: funcLabel(fn)}
 				switch {
 				case logSuffix == "":
 					ob.Status, ob.Msg = Undecided, "log suffix unknown"
@@ -560,6 +560,9 @@ func ruleR13(p *Prog) []Ob {
 				default:
 					f := sprintfFormatIn(v, 0)
 					okName, why := p.tempFormatSafe(f, v, logSuffix)
+					if okName && !p.tempNextToSegment(v) {
+						okName, why = false, "the temporary file is not created next to the segment (its directory is not the segment's): the rename that puts it in place can cross file systems and fail, after the delete has already changed the segment"
+					}
 					if okName {
 						ob.Status, ob.Msg = Discharged, why
 					} else if f == "" {
@@ -1031,4 +1034,44 @@ func wrapsItsErrors(e ssa.Value) bool {
 		}
 	}
 	return false
+}
+
+// tempNextToSegment: the name is built from the segment's own path (Sprintf("%s...", seg.Log, ...)) or
+// joined onto the segment's directory; a name joined onto anything else lives elsewhere.
+func (p *Prog) tempNextToSegment(v ssa.Value) bool {
+	v = canon(v)
+	c, ok := v.(*ssa.Call)
+	if !ok {
+		return true
+	}
+	switch calleeName(c.Common()) {
+	case "path/filepath.Join":
+		args := variadicArgs(c.Call.Args[0])
+		if len(args) == 0 || args[0] == nil {
+			return true
+		}
+		pc := p.classifyPath(args[0])
+		return pc.kind == "seg" && pc.fld == "Dir"
+	case "fmt.Sprintf":
+		if len(c.Call.Args) < 2 {
+			return true
+		}
+		args := variadicArgs(c.Call.Args[1])
+		if len(args) == 0 || args[0] == nil {
+			return true
+		}
+		a := args[0]
+		if mi, ok := a.(*ssa.MakeInterface); ok {
+			a = mi.X
+		}
+		pc := p.classifyPath(a)
+		if pc.kind == "seg" {
+			return true
+		}
+		// a call such as filepath.Base(seg.Log) strips the directory
+		if _, isCall := canon(a).(*ssa.Call); isCall {
+			return false
+		}
+	}
+	return true
 }
